@@ -64,6 +64,8 @@ def fold_resolver(ctx: Ctx, sa):
             it.globals[st.targets[0].id] = st.value.value
         elif isinstance(st, ast.AnnAssign) and isinstance(st.target, ast.Name) and isinstance(st.value, ast.Constant):
             it.globals[st.target.id] = st.value.value
+        elif isinstance(st, ast.FunctionDef) and st.name != fn.name:
+            it.globals.setdefault(st.name, microeval.Closure(st, None, it))     # module-level helpers of the resolver
     ctx.fn("_hooks.py:_resolve_forward_references")
     try:
         it.call(fn, [])
